@@ -12,7 +12,7 @@
  * word against its description: the check uses it to show that the oracle sees a 4-byte overrun); a CPU-time limit (4 s, SIGPROF) turns a hang into an observation.
  *
  * Request lines (all integers; `gen` writes the line and executes it through the routine `exec` uses):
- *   comp op gside ca  <img dst> <img src> <img mask>  sx sy mx my dx dy w h  clip     (14 % of the lines: exact-hit requests, gen_exact)
+ *   comp op gside ca  <img dst> <img src> <img mask>  sx sy mx my dx dy w h  clip     (14 % of the lines: exact-hit requests, gen_exact; 8 %: destination-edge requests, gen_dstedge)
  *   trap kind gside <img dst> xoff yoff n  v...       kind 0 rasterize_trapezoid (10 ints each),
  *        1 add_traps (6 ints each), 2 composite_trapezoids(op,maskfmt) 3 add_trapezoids 4 composite_triangles (6 ints each)
  *   fill kind gside <img dst> op n  x y w h ...       kind 0 fill_boxes (x1 y1 x2 y2), 1 fill_rectangles (x y w h)
@@ -636,6 +636,36 @@ static void gen_exact (char *out, int gside)
     emit (" %d %d 0 0 %d %d %d %d 0", sx, sy, dx, dy, w, h);
 }
 
+/* destination-edge requests: untransformed composites whose rectangle ends on the last pixel of the last row (and starts on
+   the first pixel of the first) of a destination with no row padding, for every destination format family that has
+   dedicated whole-operation routines (incl. the 24 bpp ones): a store wider than the pixel touches the guard page. */
+static void gen_dstedge (char *out, int gside)
+{
+    static const int dfm[] = { 3, 3, 3, 3, 0, 1, 2, 4, 4, 5, 5, 6, 7, 10, 11, 12, 15 };
+    static const int sfm[] = { 0, 0, 0, 1, 2, 3, 4, 5, 11 };
+    static const int opsx[] = { 1, 3, 3, 3, 12, 12 };
+    int dfi = dfm[rng_n (17)], op = rng_chance (90) ? opsx[rng_n (6)] : rng_n (14);
+    int dw = rng_chance (75) ? 4 * rng_range (1, 24) : rng_range (1, 70), dh = rng_range (1, 4);
+    int dx = rng_chance (60) ? 0 : rng_n (dw), dy = rng_chance (60) ? 0 : rng_n (dh);
+    int w = rng_chance (85) ? dw - dx : rng_range (1, dw - dx), h = rng_chance (85) ? dh - dy : rng_range (1, dh - dy);
+    int sk = rng_n (10), mk = rng_n (10), ca = 0;
+    if (dfi == 6 && (dw & 7) && rng_chance (70)) dw = (dw + 7) & ~7;
+    if (dfi == 7 && rng_chance (70)) dw = 32 * rng_range (1, 3);
+    if (dx >= dw) dx = 0;
+    if (dx + w > dw || rng_chance (50)) w = dw - dx;
+    gp = out;
+    if (mk >= 8 && rng_chance (50)) ca = 1;
+    emit ("comp %d %d %d", op, gside, ca);
+    emit (" B %d %d %d 0 %d 0 0 0 0 1 1 0 0 %llu -", dfi, dw, dh, rng_chance (30), (unsigned long long) (rng_u64 () >> 20));
+    if (sk < 4) emit (" S %u", rng_chance (50) ? rng_u32 () | 0xff000000u : rng_u32 ());
+    else emit (" B %d %d %d 0 %d 0 0 0 0 1 1 0 0 %llu -", sk < 6 ? dfi : sfm[rng_n (9)], dw + rng_n (3), dh + rng_n (2), rng_chance (30), (unsigned long long) (rng_u64 () >> 20));
+    if (mk < 4) emit (" N");
+    else if (mk < 5) emit (" S %u", rng_u32 ());
+    else if (mk < 8) emit (" B 5 %d %d 0 %d 0 0 0 0 1 1 0 0 %llu -", dw + rng_n (3), dh + rng_n (2), rng_chance (30), (unsigned long long) (rng_u64 () >> 20));
+    else emit (" B 0 %d %d 0 %d 0 0 0 0 1 1 0 0 %llu -", dw + rng_n (3), dh + rng_n (2), rng_chance (30), (unsigned long long) (rng_u64 () >> 20));
+    emit (" 0 0 0 0 %d %d %d %d 0", dx, dy, w, h);
+}
+
 static int g_dim (int role)
 {
     int k = rng_n (20);
@@ -704,6 +734,7 @@ static void gen_line (char *out)
     int k = rng_n (100), gside = rng_chance (50), dw, dh, sw, sh, mw, mh;
     gp = out;
     if (k < 14) { gen_exact (out, gside); return; }
+    if (k < 22) { gen_dstedge (out, gside); return; }
     if (k < 70)
     {
 	int op = ops[rng_n (20)], ca = rng_chance (20), w, h, dx, dy, sx, sy, mx, my, sk = rng_n (20), mk = rng_n (10);
